@@ -4,6 +4,20 @@ SM = "src/allmydata/mutable/servermap.py"
 RET = "src/allmydata/mutable/retrieve.py"
 LAY = "src/allmydata/mutable/layout.py"
 PUB = "src/allmydata/mutable/publish.py"
+HT = "src/allmydata/hashtree.py"
+
+HT_PARENT = ("                    if self[parentnum]:\n"
+             "                        if self[parentnum] != new_parent_hash:\n"
+             "                            raise BadHashError(\"h([%d]+[%d]) != h[%d]\" %\n"
+             "                                               (leftnum, rightnum, parentnum))\n"
+             "                    else:\n"
+             "                        self[parentnum] = new_parent_hash\n"
+             "                        remove_upon_failure.add(parentnum)\n"
+             "                        parent_level = depth_of(parentnum)\n"
+             "                        assert parent_level == level-1\n"
+             "                        hashes_to_check[parent_level].add(parentnum)\n")
+HT_HANDLER = "        except (BadHashError, NotEnoughHashesError, IndexError):\n            for i in remove_upon_failure:"
+HT_LEVELS = "            for level in reversed(range(len(hashes_to_check))):"
 
 FP_IF = ("        if fingerprint != self._node.get_fingerprint():\n"
          "            raise CorruptShareError(server, shnum,\n"
@@ -348,6 +362,93 @@ MUTANTS = [
       "        f.trap(BadShareError, CorruptShareError, RemoteException, DeadReferenceError)\n", None),
     M("trap-benign-layout-invalid-as-base", LAY, "                raise LayoutInvalid(\"Not a valid segment number\")\n",
       "                raise BadShareError(\"Not a valid segment number\")\n", None),
+    # ---- C10.14.* the hash trees behind the gates: one share_hash_tree serves every share of a read, so a rejected
+    #      offer must leave nothing behind and an accepted one must hang off the signed root (set_hashes rules of C35)
+    # .1 every store of the call is scheduled for roll-back, and nothing else is
+    M("ht-computed-parent-not-rolled-back", HT,
+      "                        self[parentnum] = new_parent_hash\n                        remove_upon_failure.add(parentnum)\n",
+      "                        self[parentnum] = new_parent_hash\n", "C10.14.1", note="seeded C10-E"),
+    M("ht-parent-journalled-into-a-copy", HT,
+      "                        remove_upon_failure.add(parentnum)\n",
+      "                        set(remove_upon_failure).add(parentnum)\n", "C10.14.1"),
+    M("ht-parent-journalled-only-below-level-one", HT,
+      "                        remove_upon_failure.add(parentnum)\n",
+      "                        if parentnum > 2:\n                            remove_upon_failure.add(parentnum)\n", "C10.14.1"),
+    M("ht-offered-hash-not-rolled-back-when-leaf", HT,
+      "                    self[i] = h\n                    remove_upon_failure.add(i)\n",
+      "                    self[i] = h\n                    if i < self.first_leaf_num:\n                        remove_upon_failure.add(i)\n",
+      "C10.14.1"),
+    M("ht-known-hash-scheduled-for-rollback", HT,
+      "            for i,h in new_hashes.items():\n                if self[i]:\n",
+      "            for i,h in new_hashes.items():\n                remove_upon_failure.add(i)\n                if self[i]:\n", "C10.14.1"),
+    M("ht-benign-journal-after-depth", HT,
+      "                        remove_upon_failure.add(parentnum)\n                        parent_level = depth_of(parentnum)\n",
+      "                        parent_level = depth_of(parentnum)\n                        remove_upon_failure.add(parentnum)\n", None),
+    M("ht-benign-parent-store-renamed-value", HT,
+      "                        self[parentnum] = new_parent_hash\n                        remove_upon_failure.add(parentnum)\n",
+      "                        computed = new_parent_hash\n                        self[parentnum] = computed\n"
+      "                        remove_upon_failure.add(parentnum)\n", None),
+    # .2 the roll-back handler covers every rejection, undoes everything, re-raises
+    M("ht-incomplete-chain-not-rolled-back", HT, HT_HANDLER,
+      "        except (BadHashError, IndexError):\n            for i in remove_upon_failure:", "C10.14.2"),
+    M("ht-rejection-swallowed", HT,
+      "            for i in remove_upon_failure:\n                self[i] = None\n            raise\n",
+      "            for i in remove_upon_failure:\n                self[i] = None\n            return None\n", "C10.14.2"),
+    M("ht-journal-restarted-before-propagation", HT, HT_LEVELS,
+      "            remove_upon_failure = set()\n" + HT_LEVELS, "C10.14.2"),
+    M("ht-benign-handler-names-exception", HT,
+      HT_HANDLER + "\n                self[i] = None\n            raise\n",
+      "        except (NotEnoughHashesError, IndexError, BadHashError) as e:\n            for i in remove_upon_failure:\n"
+      "                self[i] = None\n            raise\n", None),
+    M("ht-benign-handler-catches-exception", HT, HT_HANDLER,
+      "        except Exception:\n            for i in remove_upon_failure:", None),
+    # .3 a known node (the signed root above all) is never overwritten, and a mismatch with it is a rejection
+    M("ht-root-recomputed-from-children", HT, "                    if self[parentnum]:\n",
+      "                    if self[parentnum] and parentnum != 0:\n", "C10.14.3"),
+    M("ht-parent-mismatch-only-below-root", HT, "                        if self[parentnum] != new_parent_hash:\n",
+      "                        if self[parentnum] != new_parent_hash and parentnum != 0:\n", "C10.14.3"),
+    M("ht-offered-hash-replaces-known", HT, "                if self[i]:\n                    if self[i] != h:\n",
+      "                if self[i] and self[i] == h:\n                    if self[i] != h:\n", "C10.14.3"),
+    M("ht-benign-parent-branches-swapped", HT, HT_PARENT,
+      "                    if self[parentnum] is None:\n"
+      "                        self[parentnum] = new_parent_hash\n"
+      "                        remove_upon_failure.add(parentnum)\n"
+      "                        parent_level = depth_of(parentnum)\n"
+      "                        assert parent_level == level-1\n"
+      "                        hashes_to_check[parent_level].add(parentnum)\n"
+      "                    else:\n"
+      "                        if not (self[parentnum] == new_parent_hash):\n"
+      "                            raise BadHashError(\"h([%d]+[%d]) != h[%d]\" %\n"
+      "                                               (leftnum, rightnum, parentnum))\n", None),
+    # .4 everything a call adds is checked upwards until the root
+    M("ht-missing-sibling-ends-level", HT,
+      "                        raise NotEnoughHashesError(\"unable to validate [%d]\"%i)\n",
+      "                        break\n", "C10.14.4"),
+    M("ht-root-children-never-checked", HT, HT_LEVELS,
+      "            for level in reversed(range(2, len(hashes_to_check))):", "C10.14.4"),
+    M("ht-computed-parent-not-propagated", HT,
+      "                        assert parent_level == level-1\n                        hashes_to_check[parent_level].add(parentnum)\n",
+      "                        assert parent_level == level-1\n", "C10.14.4"),
+    M("ht-parent-hash-of-node-alone", HT,
+      "                    new_parent_hash = pair_hash(self[leftnum], self[rightnum])\n",
+      "                    new_parent_hash = pair_hash(self[i], self[i])\n", "C10.14.4"),
+    M("ht-benign-root-level-not-visited", HT, HT_LEVELS,
+      "            for level in reversed(range(1, len(hashes_to_check))):", None),
+    M("ht-benign-sibling-test-truthiness", HT, "                    if self[siblingnum] is None:\n",
+      "                    if not self[siblingnum]:\n", None),
+    # .9 the share hash chain's node numbers come from the share: an out-of-range one is a rolled-back rejection
+    M("ht-out-of-range-number-not-rolled-back", HT, HT_HANDLER,
+      "        except (BadHashError, NotEnoughHashesError):\n            for i in remove_upon_failure:", "C10.14.9"),
+    M("ht-indexerror-converted-before-rollback", HT, HT_HANDLER,
+      "        except IndexError:\n            raise BadHashError(\"hash number out of range\")\n"
+      "        except (BadHashError, NotEnoughHashesError):\n            for i in remove_upon_failure:", "C10.14.9"),
+    M("ht-benign-lookuperror", HT, HT_HANDLER,
+      "        except (BadHashError, NotEnoughHashesError, LookupError):\n            for i in remove_upon_failure:", None),
+    M("ht-benign-numbers-range-checked", HT, "            for i,h in new_hashes.items():\n                if self[i]:\n",
+      "            for i,h in new_hashes.items():\n                if not (0 <= i < len(self)):\n"
+      "                    raise BadHashError(\"hash number out of range\")\n                if self[i]:\n", None),
+    M("vanish-set-hashes-rollback-loop", HT, "            for i in remove_upon_failure:\n                self[i] = None\n            raise\n",
+      "            remove_upon_failure.clear()\n            raise\n", "ANALYSIS-ERROR"),
     # ---- vanished anchor
     M("vanish-validate-block", RET, "    async def _validate_block(self, results, segnum, reader, server, started):",
       "    async def _validate_blockX(self, results, segnum, reader, server, started):", "ANALYSIS-ERROR"),
